@@ -97,8 +97,16 @@ def splice(caller, bi, callee):
                              't': cont_t, 'tsp': caller['blocks'][bi]['tsp'], 'cleanup': False})
     # the call block: bind the arguments, jump to the callee's entry
     blk = caller['blocks'][bi]
-    for k, a in enumerate(t['args']):
-        blk['s'].append({'assign': {'l': ml(k + 1), 'p': []}, 'rv': {'use': copy.deepcopy(a)}, 'sp': sp})
+    if callee.get('kind') == 'closure' and len(t['args']) == 2 and callee['arg_count'] >= 1:
+        # rust-call ABI: (closure reference, tuple of the arguments); the closure body takes the arguments spread out
+        blk['s'].append({'assign': {'l': ml(1), 'p': []}, 'rv': {'use': copy.deepcopy(t['args'][0])}, 'sp': sp})
+        tup = t['args'][1].get('move') or t['args'][1].get('copy')
+        for k in range(callee['arg_count'] - 1):
+            blk['s'].append({'assign': {'l': ml(k + 2), 'p': []},
+                             'rv': {'use': {'move': {'l': tup['l'], 'p': list(tup['p']) + [{'field': str(k), 'idx': k}]}}}, 'sp': sp})
+    else:
+        for k, a in enumerate(t['args']):
+            blk['s'].append({'assign': {'l': ml(k + 1), 'p': []}, 'rv': {'use': copy.deepcopy(a)}, 'sp': sp})
     blk['t'] = {'goto': mb(0)}
     caller.setdefault('inlined', []).append(t['call'].get('fn'))
 
@@ -124,9 +132,28 @@ def normalise(d, log=None):
         return []
     bodies = d['bodies']
     new = {n for n, b in bodies.items() if n not in K and b.get('kind') in ('fn', 'assoc_fn') and '{closure' not in n and '{constant' not in n}
-    if not new:
-        return []
+    # closures used as local helpers (`let f = |x| ..; f(a); f(b)`): a direct call of a crate-local closure (Fn::call / FnMut::call_mut
+    # resolved to the closure body) is spliced like a new helper, whatever the closure is called - the pinned tree has no such call in
+    # any configuration, closures there are only handed to iterator adapters
     done = []
+    for name, raw in list(bodies.items()):
+        for bi, blk in list(enumerate(raw['blocks'])):
+            t = blk['t']
+            if 'call' not in t:
+                continue
+            cl = t['call']
+            fn = cl.get('fn') or ''
+            if '{closure' in fn and (cl.get('decl') or '') in ('core::ops::Fn::call', 'core::ops::FnMut::call_mut', 'std::ops::Fn::call', 'std::ops::FnMut::call_mut') \
+                    and fn in bodies and fn != name and bodies[fn].get('kind') == 'closure' and len(t['args']) == 2 and len(bodies[fn]['blocks']) <= MAX_BLOCKS:
+                tup = t['args'][1].get('move') or t['args'][1].get('copy')
+                if not isinstance(tup, dict) or len(raw['blocks']) > 4 * MAX_BLOCKS:
+                    continue
+                splice(raw, bi, bodies[fn])
+                done.append((name, fn))
+    if not new:
+        if done:
+            d['inlined_helpers'] = sorted({fn for _, fn in done})
+        return done
     for _ in range(MAX_ROUNDS):
         progress = False
         for name, raw in bodies.items():
@@ -153,7 +180,7 @@ def normalise(d, log=None):
     absorbed = {fn for _, fn in done}
     for fn in sorted(absorbed):
         b = bodies[fn]
-        if fn in still_called or b.get('exported') or b.get('reachable'):
+        if fn in still_called or b.get('exported') or b.get('reachable') or b.get('kind') == 'closure':
             continue
         del bodies[fn]
     d['inlined_helpers'] = sorted(absorbed)
